@@ -63,6 +63,8 @@ class ExprMixin:
         raise Unsupported(f"truth value of {v!r}")
 
     def truthy_container(self, c):
+        if isinstance(c, VConstDict):
+            return z3.BoolVal(bool(c.items))
         if isinstance(c, VList):
             return c.length() > 0
         if isinstance(c, (VMap, VSet)):
